@@ -159,6 +159,10 @@ func (p *Packet) unpackWithCompression(r io.Reader, threshold int) error {
 		return err
 	}
 
+	if PacketLength < 0 {
+		return fmt.Errorf("compressed packet error: packet length is %d", PacketLength)
+	}
+
 	buff := bufPool.Get().(*bytes.Buffer)
 	defer bufPool.Put(buff)
 	buff.Reset()
@@ -200,6 +204,9 @@ func (p *Packet) unpackWithCompression(r io.Reader, threshold int) error {
 			return err
 		}
 		DataLength = VarInt(int64(PacketLength) - n2 - n3)
+	}
+	if DataLength < 0 || DataLength > MaxDataLength {
+		return fmt.Errorf("compressed packet error: length of data is %d", DataLength)
 	}
 	if cap(p.Data) < int(DataLength) {
 		p.Data = make([]byte, DataLength)
